@@ -35,6 +35,9 @@ type inNode struct {
 	bval    bool
 	vid, vln, vcp *big.Int
 	stream        []byte // kind "stream": the bytes the reader delivers
+	stubMethods   []string // kind "stub": interface value built from a test-local type whose methods
+	stubTypes     []types.Type
+	stubNodes     []*inNode // return the model's observer values
 }
 
 type replayCtx struct {
@@ -122,6 +125,7 @@ func (rc *replayCtx) build(t types.Type, leaves []*Term, depth int) *inNode {
 			n.kind = "iface"
 			n.id = leaves[0]
 			rc.want(n.id)
+			rc.stubFor(n, t, leaves, depth)
 		}
 	default:
 		n.kind = "opaque"
@@ -268,6 +272,11 @@ func (rc *replayCtx) fill(n *inNode) {
 		for _, f := range n.fields {
 			rc.fill(f)
 		}
+	case "stub":
+		n.vid = get(n.id)
+		for _, sn := range n.stubNodes {
+			rc.fill(sn)
+		}
 	case "iface":
 		n.vid = get(n.id)
 	case "ptr":
@@ -291,6 +300,25 @@ func signed64(v *big.Int) *big.Int {
 func (g *goGen) literal(n *inNode) (string, bool) {
 	ts := g.typeStr(n.T)
 	switch n.kind {
+	case "stub":
+		if n.vid != nil && n.vid.Sign() == 0 {
+			return fmt.Sprintf("*new(%s)", ts), true
+		}
+		id := len(g.stubDecls)
+		var fields, inits []string
+		var meths strings.Builder
+		for i, m := range n.stubMethods {
+			l, ok := g.literal(n.stubNodes[i])
+			if !ok {
+				return "", false
+			}
+			rt := g.typeStr(n.stubTypes[i])
+			fields = append(fields, fmt.Sprintf("m%d %s", i, rt))
+			inits = append(inits, fmt.Sprintf("m%d: %s", i, l))
+			fmt.Fprintf(&meths, "func (s hvcStub%d) %s() %s { return s.m%d }\n", id, m, rt, i)
+		}
+		g.stubDecls = append(g.stubDecls, fmt.Sprintf("type hvcStub%d struct{ %s }\n%s", id, strings.Join(fields, "; "), meths.String()))
+		return fmt.Sprintf("%s(hvcStub%d{%s})", ts, id, strings.Join(inits, ", ")), true
 	case "stream":
 		g.imports["bytes"] = "bytes"
 		var bs []string
@@ -710,6 +738,9 @@ func (v *Verifier) replaySource(o *Obligation, fx *FnCtx, fn *ssa.Function, fc *
 	}
 	sb.WriteString(")\n\n")
 	sb.WriteString(decls)
+	for _, d := range g.stubDecls {
+		sb.WriteString("\n" + d)
+	}
 	sb.WriteString("\nfunc TestHvcReplay(hvcT *testing.T) {\n")
 	sb.WriteString(body.String())
 	sb.WriteString("}\n")
@@ -944,4 +975,59 @@ func (rc *replayCtx) streamBytes(root *RootCtx) []byte {
 		}
 	}
 	return out
+}
+
+// stubFor turns an interface input into a stub when every method of the (named) interface type is an
+// observer (trusted contract  ensures result == uf(self)): the replay then builds a value of a
+// test-local type whose methods return what the model says the observers return.
+func (rc *replayCtx) stubFor(n *inNode, t types.Type, leaves []*Term, depth int) {
+	fx := rc.fx
+	named, ok := t.(*types.Named)
+	if !ok || named.Obj().Pkg() == nil {
+		return
+	}
+	it, ok := t.Underlying().(*types.Interface)
+	if !ok || it.NumMethods() == 0 {
+		return
+	}
+	var meths []string
+	var rts []types.Type
+	var nodes []*inNode
+	for i := 0; i < it.NumMethods(); i++ {
+		m := it.Method(i)
+		sig := m.Type().(*types.Signature)
+		if sig.Params().Len() != 0 || sig.Results().Len() != 1 {
+			return
+		}
+		if !m.Exported() && m.Pkg() != fx.pkgTypes() {
+			return
+		}
+		fc := fx.V.cs.Funcs[named.Obj().Pkg().Path()+"."+named.Obj().Name()+"."+m.Name()]
+		if fc == nil {
+			return
+		}
+		uf := observerUF(fc)
+		if uf == "" {
+			return
+		}
+		env := fx.entryEnv(fx.entry)
+		env.vars["hvc$stub"] = SV{V: Value{T: t, L: leaves}}
+		var sv SV
+		func() {
+			defer func() {
+				if r := recover(); r != nil {
+					uf = ""
+				}
+			}()
+			sv = fx.evalSpec(env, &SCall{Fun: uf, Args: []SpecExpr{&SIdent{Name: "hvc$stub"}}})
+		}()
+		if uf == "" {
+			return
+		}
+		meths = append(meths, m.Name())
+		rts = append(rts, sig.Results().At(0).Type())
+		nodes = append(nodes, rc.build(sig.Results().At(0).Type(), sv.V.L, depth+1))
+	}
+	n.kind = "stub"
+	n.stubMethods, n.stubTypes, n.stubNodes = meths, rts, nodes
 }
